@@ -197,32 +197,36 @@ func Association[K comparable, V any](arguments ...any) col.AssociationLike[K, V
 	var key K
 	var value V
 
-	// Process the actual arguments.
+	// Process the actual arguments.  The key and the value are positional since
+	// their types may be the same (or the value type may be "any").
+	var position int
 	for _, argument := range arguments {
-		switch actual := argument.(type) {
-		case K:
-			key = actual
-		case V:
-			value = actual
-		default:
-			var notationType = ref.TypeOf((*col.NotationLike)(nil)).Elem()
-			var reflectedType = ref.TypeOf(argument)
-			switch {
-			case reflectedType.Implements(notationType):
-				notation = argument.(col.NotationLike)
-			default:
-				var message = fmt.Sprintf(
-					"Unknown argument type passed into the association constructor: %T\n",
-					actual,
-				)
-				panic(message)
-			}
+		var notationType = ref.TypeOf((*col.NotationLike)(nil)).Elem()
+		var reflectedType = ref.TypeOf(argument)
+		if reflectedType != nil && reflectedType.Implements(notationType) {
+			notation = argument.(col.NotationLike)
+			continue
 		}
+		var ok bool
+		switch position {
+		case 0:
+			key, ok = argument.(K)
+		case 1:
+			value, ok = argument.(V)
+		}
+		if !ok {
+			var message = fmt.Sprintf(
+				"Unknown argument type passed into the association constructor: %T\n",
+				argument,
+			)
+			panic(message)
+		}
+		position++
 	}
 
 	// Call the right constructor.
 	var class = col.Association[K, V](notation)
-	if !ref.ValueOf(key).IsValid() || !ref.ValueOf(value).IsValid() {
+	if position < 2 || !ref.ValueOf(key).IsValid() || !ref.ValueOf(value).IsValid() {
 		panic("The constructor for an association requires a key and value.")
 	}
 	var association = class.Make(key, value)
